@@ -18,7 +18,7 @@ func init() {
 	register("C13", func(tier string) CheckSpec {
 		depth, budget := 3, 240*time.Second
 		if tier == "thorough" {
-			depth, budget = 5, 30*time.Minute
+			depth, budget = 5, 20*time.Minute
 		}
 		var us []Unit
 		for _, x := range []string{"1", "10", "0"} {
